@@ -11,15 +11,36 @@ import (
 	badger "github.com/dgraph-io/badger/v2"
 )
 
-// Disks maps a data directory to the node's surviving database.
+// Disks maps a data directory to the node's surviving database (nil until the node's first start opens it).
 var Disks = map[string]*badger.DB{}
 
-// OpenDB is what setup() calls instead of badger.Open(path).
-func OpenDB(dir string) (*badger.DB, error) {
-	if db, ok := Disks[dir]; ok {
+// TableSize is the memtable size of the simulated disks (1 MiB unless a harness needs room for large log entries).
+var TableSize int64 = 1 << 20
+
+// OpenDB is what setup() calls instead of badger.Open(options): the options are the ones the server passes (whatever
+// it tunes - size limits, thresholds - applies), only the place changes: the directory names a per-node in-memory
+// database that is opened at the node's first start and survives its crashes.
+func OpenDB(opts badger.Options) (*badger.DB, error) {
+	dir := opts.Dir
+	db, ok := Disks[dir]
+	if !ok {
+		return nil, errors.New("serverenv: no disk registered for " + dir)
+	}
+	if db != nil {
 		return db, nil
 	}
-	return nil, errors.New("serverenv: no disk registered for " + dir)
+	// small tables keep thousands of simulated disks cheap; a batch may be 15% of a table, so histories with multi-megabyte
+	// log entries ask for bigger ones (TableSize). The value threshold has no meaning without a value log.
+	opts = opts.WithDir("").WithValueDir("").WithInMemory(true).WithLogger(nil).WithMaxTableSize(TableSize).WithNumMemtables(2)
+	if int64(opts.ValueThreshold) > (15*TableSize)/100 {
+		opts = opts.WithValueThreshold(int((15 * TableSize) / 100))
+	}
+	db, err := badger.Open(opts)
+	if err != nil {
+		return nil, err
+	}
+	Disks[dir] = db
+	return db, nil
 }
 
 type listener struct{ addr string }
